@@ -117,7 +117,7 @@ def runDeleteOld (mask : Nat → DelOutcome) (st : CompState) : Act → CompStat
   | .del ik raw =>
     if st.lastFailed.length > 0 && st.lastFailed == raw then st
     else match mask st.calls with
-      | .failCas => { st with calls := st.calls + 1, trace := st.trace ++ [(false, ik)] }
+      | .failCas => { st with calls := st.calls + 1, trace := st.trace ++ [.del ik] }
       | _ => runDelete mask st (.del ik raw)
   | a => runDelete mask st a
 
@@ -140,6 +140,7 @@ theorem runDeleteOld_eq {mask : Nat → DelOutcome} {st : CompState} {a : Act}
     · exact absurd rfl (h ik raw)
   | emit k v r => rfl
   | delcur ik v raw => rfl
+  | expire ik v vers raw => rfl
   | panic => rfl
 
 /-- Witness for the fix. The plain delete of the older version fails with a failed-condition error (a
@@ -178,7 +179,8 @@ example : (after 8 (fun i => if i = 0 then .fail else .ok) exRecs).length = 5 :=
 record (call 0) and the plain delete of `/b`'s superseded version (call 3) fail with a failed-condition
 error, the plain delete of `/a`'s marker (call 2) fails otherwise -/
 def mixedMask : Nat → DelOutcome := fun i => if i = 0 ∨ i = 3 then .failCas else if i = 2 then .fail else .ok
-example : (runDeletes mixedMask { store := encodeStore exRecs } (workerActs { R := 8, compact := true } exRecs)).trace.map (·.1)
+example : (runDeletes mixedMask { store := encodeStore exRecs } (workerActs { R := 8, compact := true } exRecs)).trace.map
+      (fun t => match t with | .delcur _ => true | _ => false)
     = [true, false, false, false] := by decide
 example : (after 8 mixedMask exRecs).map (fun r => (r.key, r.rev)) =
     [([47, 97], 0), ([47, 97], 7), ([47, 98], 0), ([47, 98], 4), ([47, 98], 5)] := by decide
